@@ -156,6 +156,9 @@ def run(prog: Program, res: Result, tier: str) -> None:
     check_push_data(prog, res, "R5")
     res.assumptions += ["read_plan delivers the selected range exactly once in blocks of at most gulp samples (C01)",
                         "sample values are integer-valued so that float32 sums are exact (property's own quantifier)"]
+    # ---- R2 (cont.) no negative delay reaches the dedispersion kernel (shared with C09.R3; F38) ----------------------------
+    from ..lints import check_delay_sign
+    check_delay_sign(prog, res, "R2", only={"dedisperse"})
     # ---- R6 the plan the reductions consume (shared with C01) ----------------------------------------------------
     depends(res, "R6", prog, tier, "C01", why="the blocks these loops consume come from read_plan: the plan rules of C01 (and, through them, the multi-file stream rules of C02) are re-evaluated here")
     res.floor("R6", 40)
@@ -298,6 +301,8 @@ B = "sigpyproc/base.py"
 K = "sigpyproc/core/kernels.py"
 S = "sigpyproc/core/stats.py"
 MUTANTS = [
+    {"id": "c06-revert-F38", "file": "sigpyproc/base.py", "expect": "C06.R2",
+     "old": "        chan_delays = self.header.get_dmdelays(dm)\n        # Channels that lead the reference (ascending band, negative DM) have\n        # negative delays: count them from the earliest channel instead\n        min_delay = min(0, int(chan_delays.min()))\n        chan_delays = chan_delays - min_delay\n        max_delay = int(chan_delays.max())\n        gulp = max(2 * max_delay, gulp)\n        nsamps_range = ", "new": "        chan_delays = self.header.get_dmdelays(dm)\n        min_delay = 0\n        max_delay = int(chan_delays.max())\n        gulp = max(2 * max_delay, gulp)\n        nsamps_range = "},
     {"id": "c06-bpass-local-accumulator-overwrites", "file": K, "expect": "C06.R4",
      "old": "    for ichan in prange(nchans):\n        for isamp in range(nsamps):\n            outarray[ichan] += inarray[nchans * isamp + ichan]",
      "new": "    for ichan in prange(nchans):\n        chan_sum = 0.0\n        for isamp in range(nsamps):\n            chan_sum += inarray[nchans * isamp + ichan]\n        outarray[ichan] = chan_sum"},
